@@ -109,6 +109,29 @@ def movesOf (N : String → Option Nat) (tk : String) : Option (List ItMove) :=
 def revOf (tk : String) : Option Bool :=
   if tk == "f" then some false else if tk == "r" then some true else none
 
+/-- wide-character argument: `-` (empty) or code points in hex joined by `.`; 0 (the terminator) and values that do
+    not fit a 32-bit `wchar_t` are refused (same rules as `wideOf` in the harness) -/
+def wideOf (tk : String) : Option (List Nat) :=
+  if tk == "-" then some []
+  else (tk.splitOn ".").mapM fun h =>
+    if h.isEmpty || h.length > 8 then none
+    else h.toList.foldlM (fun (acc : Nat) ch =>
+      if ch.isDigit then some (acc * 16 + (ch.toNat - 48))
+      else if 'a' ≤ ch ∧ ch ≤ 'f' then some (acc * 16 + (ch.toNat - 87))
+      else none) 0 >>= fun v => if v = 0 ∨ v ≥ 2 ^ 31 then none else some v
+
+/-- `ls`, `lc`, `lsp<precision>` (precision < 2^31, decimal) -/
+def wargOf (kind : String) (ws : List Nat) : Option WArg :=
+  if kind == "ls" then some (.ls ws)
+  else if kind == "lc" then (match ws with | [w] => some (.lc w) | _ => none)
+  else if kind.startsWith "lsp" then
+    let d := (kind.drop 3).toString
+    if d.isEmpty || d.length > 10 || !(d.all Char.isDigit) then none
+    else match d.toNat? with
+      | some p => if p < 2 ^ 31 then some (.lsp p ws) else none
+      | none => none
+  else none
+
 def parse (c : Cfg) (w : World) (toks : List String) : Option Op := do
   let N (tk : String) : Option Nat := num c w.s tk
   let I (tk : String) : Option ItArg := if tk == "end" then some .fin else (N tk).map .pos
@@ -193,6 +216,7 @@ def parse (c : Cfg) (w : World) (toks : List String) : Option Op := do
   | ["add_c", ch] => return .addC (← chOf ch)
   | ["sprintf", a] => return .sprintf (← P a)
   | ["sprintf2", a, v] => return .sprintf2 (← P a) (← N v)
+  | ["sprintf_w", a, kind, ws, v, b] => return .sprintfW (← P a) (← wargOf kind (← wideOf ws)) (← N v) (← P b)
   | ["cmp_f", f] => return .cmpF (← selOf f)
   | ["cmp_s", d] => return .cmpS (← S d)
   | ["cmp_p", a] => return .cmpP (← P a)
